@@ -4,10 +4,12 @@ package verifharness
 // and record one event per spec action; TLC validates the batch against TraceDial.tla.
 
 import (
+	"bytes"
 	"context"
 	"crypto/tls"
 	"errors"
 	"fmt"
+	"github.com/c2FmZQ/ech/dns"
 	"io"
 	"net"
 	"os"
@@ -76,7 +78,31 @@ func runDialScenario(t *testing.T, sc dialScen, delay, timeout int) (evs []Ev, c
 		var addrs []string
 		calls := map[int]int{}
 		idx := map[string]int{}
+		// A target that ends in an error without an attempt ("rerr" in Dial.tla) has two realisations: its name does not
+		// resolve, or - every other scenario - RequireECH is set and the target's HTTPS record carries no ECH config list
+		// while the other targets' records do. The second form takes the resolution result the way Transport hands it over.
+		noech, sum := false, sc.CancelAt+1
+		for _, o := range sc.Oc {
+			sum += o.D
+			noech = noech || o.Kind == "rerr"
+		}
+		noech = noech && sum%2 == 0
+		var injected ech.ResolveResult
+		if noech {
+			injected = ech.ResolveResult{Port: 443, Address: []net.IP{{10, 0, 0, 1}}}
+			for i, o := range sc.Oc {
+				h := dns.HTTPS{Priority: uint16(i + 1), Port: uint16(1001 + i)}
+				if o.Kind != "rerr" {
+					h.ECH = bytes.Clone(polLists["E1"])
+				}
+				injected.HTTPS = append(injected.HTTPS, h)
+				idx[fmt.Sprintf("10.0.0.1:%d", 1001+i)] = i + 1
+			}
+		}
 		for i, o := range sc.Oc {
+			if noech {
+				break
+			}
 			if o.Kind == "rerr" {
 				// a label longer than 63 bytes: Resolve fails with ErrInvalidName, no I/O
 				addrs = append(addrs, strings.Repeat("x", 64)+fmt.Sprintf("%d.example", i+1))
@@ -148,6 +174,10 @@ func runDialScenario(t *testing.T, sc dialScen, delay, timeout int) (evs []Ev, c
 			defer tm.Stop()
 		}
 		network := "tcp"
+		if noech {
+			ctx = ech.VerifContextWithResolveResult(ctx, "origin.example", injected)
+			addrs = []string{"origin.example:443"}
+		}
 		if sc.N == 0 {
 			// zero targets: an IPv4 literal filtered out by the tcp6 family
 			network, addrs = "tcp6", []string{"127.0.0.1"}
@@ -156,7 +186,7 @@ func runDialScenario(t *testing.T, sc dialScen, delay, timeout int) (evs []Ev, c
 		var c *dialConn
 		var err error
 		if (sc.N+sc.K)%2 == 1 {
-			d := &ech.Dialer[dialIface]{MaxConcurrency: sc.K, ConcurrencyDelay: time.Duration(delay) * dialUnit, Timeout: time.Duration(timeout) * dialUnit,
+			d := &ech.Dialer[dialIface]{RequireECH: noech, MaxConcurrency: sc.K, ConcurrencyDelay: time.Duration(delay) * dialUnit, Timeout: time.Duration(timeout) * dialUnit,
 				DialFunc: func(ctx context.Context, network, addr string, tc *tls.Config) (dialIface, error) {
 					x, err := dialFn(ctx, network, addr, tc)
 					if x == nil {
@@ -170,7 +200,7 @@ func runDialScenario(t *testing.T, sc dialScen, delay, timeout int) (evs []Ev, c
 				c = ci.(*dialConn)
 			}
 		} else {
-			d := &ech.Dialer[*dialConn]{MaxConcurrency: sc.K, ConcurrencyDelay: time.Duration(delay) * dialUnit, Timeout: time.Duration(timeout) * dialUnit, DialFunc: dialFn}
+			d := &ech.Dialer[*dialConn]{RequireECH: noech, MaxConcurrency: sc.K, ConcurrencyDelay: time.Duration(delay) * dialUnit, Timeout: time.Duration(timeout) * dialUnit, DialFunc: dialFn}
 			c, err = d.Dial(ctx, network, strings.Join(addrs, ","), nil)
 		}
 		switch {
@@ -318,6 +348,29 @@ func TestStockDialer(t *testing.T) {
 				w.Write(Ev{"key": mode, "diff": "Dial against a peer that accepts TCP and stalls the TLS handshake does not return: the attempt is bounded neither by Timeout nor by the caller's context"})
 			}
 			cancel()
+		}
+	}
+	// calls that fail before any attempt is made: a PublicName no ECHConfig can carry (longer than 255 bytes), a network
+	// whose family excludes every address, a name that cannot be resolved - an error, and nothing left running either
+	for _, k := range []int{0, 1, 4} {
+		for _, early := range []string{"longname", "family", "badname"} {
+			runs++
+			d := ech.NewDialer()
+			d.MaxConcurrency = k
+			network, addr := "tcp", ln.Addr().String()
+			switch early {
+			case "longname":
+				d.PublicName = strings.Repeat("a234567.", 40) + "example"
+			case "family":
+				network = "tcp6"
+			case "badname":
+				addr = strings.Repeat("x", 64) + ".example:443"
+			}
+			c, err := d.Dial(context.Background(), network, addr, &tls.Config{ServerName: "stalled.example", InsecureSkipVerify: true})
+			if err == nil {
+				w.Write(Ev{"key": "early:" + early, "diff": "Dial (" + early + ") returned a connection"})
+				c.Close()
+			}
 		}
 	}
 	// nothing of the Dialer keeps running (the attempts' goroutines end with their context)
